@@ -16,7 +16,7 @@ def run_case(name, prop, apply_fn, expect_violation):
         ok, why = apply_fn(d)
         if not ok:
             return name, prop, "SKIP", why, 0.0
-        env = dict(os.environ, VERIF_REPO=d, VERIF_EVIDENCE_DIR=os.path.join(d, "evidence"), VERIF_TIER="quick")
+        env = dict(os.environ, VERIF_REPO=d, VERIF_EVIDENCE_DIR=os.path.join(d, "evidence"), VERIF_REPLAY_DIR=os.path.join(d, "replays"), VERIF_TIER="quick")
         t = time.time()
         p = subprocess.run([os.path.join(VERIF, "check"), prop, "--tier", "quick"], cwd=VERIF, env=env, capture_output=True, text=True)
         dt = time.time() - t
